@@ -82,6 +82,8 @@ SOLVE_FAMILY = {
                    "distinct cases with at least 5 provider calls"),
         "soft_rejected_or_accepted": (lambda c, i, m: any(l.startswith("t softfail") for l in i) or any(l.startswith("t runsat") and not l.startswith("t runsat root") for l in i),
                                       "distinct cases in which at least one soft requirement went through its own run_sat"),
+        "unsat_graph": (lambda c, i, m: any(l.startswith("info graph edges") and int(l.split()[3]) >= 3 for l in m),
+                        "distinct Unsolvable cases whose conflict graph has at least 3 edges"),
         "any": (lambda c, i, m: True, "all distinct cases (every case exercises panic/termination checks)"),
     },
     "compare": split_oracles,
@@ -146,6 +148,13 @@ PROPS = {
         "explanation": "Proof of a certifying checker: every Unsolvable verdict of the implementation is re-derived by a kernel-verified checker from the implementation's own history (fail_sound), and compared with a verified independent decision procedure (decideSolvable_iff). Termination/completeness of the search (C02 (d)) is not proved.",
         "assumptions": ["CandsKnown U (listed candidates have table entries) for the reference decision procedure",
                         "the verif-hooks history is emitted faithfully (an omitted event makes the checker reject, not accept)"],
+    },
+    "C03": {
+        "nt_rule": "unsat_graph",
+        "level": "other", "module": "Resolvo.Props.C03",
+        "theorems": ["Resolvo.C03.refutes_exact", "Resolvo.C03.learnt_from_antecedents", "Resolvo.C03.clauses_truthful", "Resolvo.Graph.graphRefutes_iff"],
+        "families": [("solve", SOLVE_Q), ("soft", SOFT_Q)],
+        "explanation": "PROVED: the refutation oracle is exact (verified DPLL on a formula read from the graph alone); learnt clauses of accepted histories are entailed by their recorded antecedents; all clauses of accepted histories have true provenance. CHECKED PER RUN on every Unsolvable answer: each edge of the implementation's ConflictGraph against the provider tables, reachability from the root, graphRefutes, and that the clause ids blamed by the Conflict refute the root on their own and contain no learnt clause. NOT YET PROVED: that the model of analyze_unsolvable / Conflict::graph always produces such a graph.",
     },
     "C04": {
         "nt_rule": "any",
